@@ -830,6 +830,21 @@ func (tr *intTr) lazy1(t *Term) *Poly {
 		if a.IsConst() {
 			a, b = b, a
 		}
+		// x ^ mask with mask in {0, all-ones} (as the polynomial 0 / -1):  x + mask*(2x+1)  (mod 2^w)
+		m1 := big.NewInt(-1)
+		for k := 0; k < 2; k++ {
+			x, mk := a, b
+			if k == 1 {
+				x, mk = b, a
+			}
+			if mk.IsConst() {
+				continue
+			}
+			if lm := tr.lazy(mk); ivWithin(tr.ivOf(lm), m1, big0) {
+				cx := tr.canon(x)
+				return pAdd(cx, pMul(lm, pAdd(pScale(cx, big.NewInt(2)), pConst(big1))))
+			}
+		}
 		ca := tr.canon(a)
 		if b.IsConst() && b.val.Cmp(big1) == 0 && ivWithin(tr.ivOf(ca), big0, big1) {
 			return pSub(pConst(big1), ca)
